@@ -48,6 +48,13 @@ def build_layouts(root, fmt="fb", compression=""):
     return out
 
 
+# the writing sessions of build_layouts()["nested"]["train"], each in the
+# order its examples were written (a multi-writer call in argument order);
+# later sessions rewrite the split's list, which must not reorder earlier ones
+NESTED_SESSIONS = [[0, 1, 2], [10, 11, 12, 20, 30, 31, 32, 33],
+                   [40, 41, 42, 43, 44]]
+
+
 def reference_sequence(dataset, root, split, **sel):
     shards = C.tree_shards(root, split)
     sel3 = C.select_reference(shards, sel.get("k"), sel.get("n"),
@@ -250,6 +257,17 @@ def check_order(ctx):
                             expect[split]):
                         bad = dict(layout=name, what="reference walk differs "
                                    "from what was written", ref=ref)
+                        break
+                    sessions = NESTED_SESSIONS if (name, split) == (
+                        "nested", "train") else [expect[split]]
+                    for sess in sessions:
+                        if [i for i in ref if i in set(sess)] != sess:
+                            bad = dict(layout=name, split=split, what="the "
+                                       "examples of one writing session are "
+                                       "not listed in the order they were "
+                                       "written", session=sess, listed=ref)
+                            break
+                    if bad:
                         break
                     for iface in _ifaces(fmt, tier):
                         for fp in (fps if iface in ("concurrent", "rust",
@@ -499,6 +517,19 @@ def _damage(path: Path, kind):
         path.write_bytes(b"")
     elif kind == "garbage":
         path.write_bytes(b"\x13garbage-not-a-shard" * 11)
+    elif kind == "short-column":
+        # npz only: the array of the LAST attribute loses its last element.
+        # The decoder takes the number of examples from the first attribute
+        # and indexes every attribute per example, so it rejects this content
+        # (IndexError); a first attribute shortened instead is content the
+        # decoder accepts, hence outside C07's quantifier and not generated.
+        import numpy as np
+        with np.load(path) as z:
+            arrays = {k: z[k] for k in z.files}
+        last = list(arrays)[-1]
+        arrays[last] = arrays[last][:-1]
+        with open(path, "wb") as f:
+            np.savez(f, **arrays)
 
 
 def _tfrecord_rejects(path: Path, comp) -> bool:
@@ -518,16 +549,23 @@ def check_damage(ctx):
     from sedpack.io import Dataset
     tier = ctx["tier"]
     out = []
-    fmts = [("fb", ""), ("fb", "GZIP")] if tier == "quick" else [
-        ("fb", ""), ("fb", "GZIP"), ("fb", "LZ4"), ("npz", ""),
+    fmts = [("fb", ""), ("fb", "GZIP"), ("npz", ""), ("tfrec", "")] \
+        if tier == "quick" else [
+        ("fb", ""), ("fb", "GZIP"), ("fb", "LZ4"), ("npz", ""), ("npz", "ZIP"),
         ("tfrec", ""), ("tfrec", "GZIP")]
-    kinds = ["deleted", "emptied", "garbage"]
+    all_kinds = ["deleted", "emptied", "garbage"]
     positions = [0, 1, -1] if tier != "quick" else [1]
     n_eval = 0
     n_skipped = 0
     fails = []
     with C.tmpdir() as tmp:
         for fmt, comp in fmts:
+            kinds = list(all_kinds)
+            if fmt == "npz":
+                kinds.append("short-column")
+            if tier == "quick" and fmt != "fb":
+                kinds = ["deleted", "short-column" if fmt == "npz"
+                         else "garbage"]
             for kind in kinds:
                 for pos in positions:
                     root = tmp / f"{fmt}_{comp}_{kind}_{pos}"
@@ -549,8 +587,6 @@ def check_damage(ctx):
                     d = Dataset(root)
                     for iface in _ifaces(fmt, tier):
                         for shuffle in (0, 5):
-                            if iface == "tf" and shuffle:
-                                continue
                             n_eval += 1
                             key = None
                             try:
@@ -585,8 +621,9 @@ def check_damage(ctx):
         seen.add(k)
         out.append(f)
     out.append(C.result(
-        "damaged shard (deleted / emptied / garbage; first, middle, last) "
-        "raises in every interface, shuffled and not", not fails,
+        "damaged shard (deleted / emptied / garbage / npz attribute array "
+        "cut short; first, middle, last) raises in every interface, shuffled "
+        "and not", not fails,
         evaluations=n_eval,
         bound=f"formats {fmts}, positions {positions}, watchdog 40 s; "
               f"{n_skipped} tfrec cases skipped because the TFRecord decoder "
@@ -606,6 +643,56 @@ def _wait_for_workers(timeout=20.0):
                    for t in threading.enumerate()):
             return
         _t.sleep(0.005)
+
+
+def _guarded_child(module, args, timeout, max_rss_mb):
+    """Run `python -m module args` (same interpreter, same sedpack), kill it
+    when it exceeds the wall time or the resident memory; returns (list of the
+    JSON lines it printed, "exit N" | "killed: ...")."""
+    import subprocess
+    import sys
+    import tempfile
+    import time as _t
+    import sedpack
+    here = os.path.dirname(os.path.dirname(os.path.abspath(__file__)))
+    env = dict(os.environ, TF_CPP_MIN_LOG_LEVEL="3", CUDA_VISIBLE_DEVICES="",
+               PYTHONDONTWRITEBYTECODE="1",
+               PYTHONPATH=os.path.dirname(os.path.dirname(os.path.abspath(
+                   sedpack.__file__))) + os.pathsep + here)
+    with tempfile.TemporaryFile("w+") as fo:
+        pr = subprocess.Popen([sys.executable, "-m", module] + list(args),
+                              env=env, cwd=here, stdout=fo,
+                              stderr=subprocess.DEVNULL)
+        end = _t.time() + timeout
+        how = None
+        while pr.poll() is None:
+            _t.sleep(0.05)
+            rss = 0
+            try:
+                with open(f"/proc/{pr.pid}/status") as f:
+                    for ln in f:
+                        if ln.startswith("VmRSS:"):
+                            rss = int(ln.split()[1]) // 1024
+            except OSError:
+                pass
+            if rss > max_rss_mb:
+                how = f"killed: resident memory grew beyond {max_rss_mb} MB"
+            elif _t.time() > end:
+                how = f"killed: still running after {timeout} s"
+            if how:
+                pr.kill()
+                pr.wait()
+                break
+        if how is None:
+            how = f"exit {pr.returncode}"
+        fo.seek(0)
+        lines = []
+        for ln in fo:
+            try:
+                lines.append(json.loads(ln))
+            except ValueError:
+                pass
+    return lines, how
 
 
 def check_lazy(ctx):
@@ -648,9 +735,10 @@ def check_lazy(ctx):
                             if iface == "numpy":
                                 bound = needed + (shuffle + 1 + 1) // 2 + 1
                             elif shuffle:
-                                bound = needed + (2 * fp + 3) + fp + 1
+                                bound = needed + (2 * (fp or 1) + 3) + (
+                                    fp or 1) + 1
                             else:
-                                bound = needed + fp
+                                bound = needed + (fp or 1)
                             if len(got) != take or len(opened) > bound:
                                 bad = dict(interface=iface, shuffle=shuffle,
                                            fp=fp, take=take,
@@ -664,9 +752,45 @@ def check_lazy(ctx):
                     break
         finally:
             IterateShardFlatBuffer.iterate_shard = orig
+        if bad is None:
+            # as_tfdataset (documents file_parallelism=None, "chosen
+            # automatically"); in a child process watched for memory and time
+            cases, how = _guarded_child("harness.lazy_child", [str(root)],
+                                        timeout=300, max_rss_mb=3000)
+            running = None
+            for c in cases:
+                if c["event"] == "start":
+                    running = c
+                    continue
+                running = None
+                n_eval += 1
+                fp_, take, shuffle = c["fp"] or 1, c["take"], c["shuffle"]
+                needed = (take + 1) // 2
+                # the bound of the concurrent reader underneath, plus 8
+                # shards for the read-ahead of tf.data's prefetch
+                bound = needed + ((2 * fp_ + 3) + fp_ + 1 if shuffle
+                                  else fp_) + 8
+                if c["event"] == "hang" or c.get("got") != take or \
+                        c["opened"] > bound:
+                    bad = dict(interface="tf", shuffle=shuffle, fp=c["fp"],
+                               take=take, opened=c["opened"], bound=bound,
+                               outcome=c.get("what", c["event"]))
+                    break
+            if bad is None and how != "exit 0" and not running and \
+                    how.startswith("exit"):
+                raise RuntimeError("lazy_child failed outside a case: " + how)
+            if bad is None and (how != "exit 0" or running):
+                r = running or {}
+                bad = dict(interface="tf", shuffle=r.get("shuffle"),
+                           fp=r.get("fp"), take=r.get("take"),
+                           outcome="taking finitely many examples from the "
+                                   "repeating stream did not end: child "
+                                   "process " + how)
     return [C.result(
         "take k from a repeating stream: shards opened <= needed + bound("
         "shuffle, file_parallelism), independent of the 20-shard dataset",
         bad is None, function="as_numpy_iterator_concurrent",
         evaluations=n_eval, witness=bad,
-        bound="fb, 20 shards, k in {1,3,7}, shuffle in {0,2}, fp in {1,2,3}")]
+        bound="fb, 20 shards, k in {1,3,7}, shuffle in {0,2}, fp in {1,2,3}; "
+              "as_tfdataset also with file_parallelism=None, +8 shards "
+              "allowed for its prefetch")]
